@@ -174,6 +174,12 @@ func (x *Run) intrinsic(fr *Frame, st *State, fn *ssa.Function, args []Val, site
 		x.havocAllExcept(st, keep)
 		st.dirty["*"] = true
 		return single(st, unit), true
+	case "Visited":
+		// Visited(m, k): the running range statement over m has already visited key k
+		if mt := mapTypeOf(args[0].Ty); mt != nil {
+			return single(st, Val{T: sel(sel(x.arr(st, x.visitedArr(mt)), args[0].T), args[1].T), S: SBool, Ty: types.Typ[types.Bool]}), true
+		}
+		return single(st, Val{T: "false", S: SBool}), true
 	case "FieldTag", "FieldType":
 		// FieldTag[T](name) / FieldType[T](name): the struct tag / the Go type of
 		// field name of struct type T, read from the type-checked source
@@ -605,7 +611,9 @@ func (x *Run) prepareUse(ctx *useCtx, con *Contract, st *State) {
 			if m == "*" {
 				x.havocAllExcept(h, con.Preserves)
 			} else {
-				x.havocArr(h, m)
+				for _, n := range x.expandMod(m) {
+					x.havocArr(h, n)
+				}
 			}
 		}
 		ctx.results = x.freshResults(h, con.Sig.Results())
